@@ -396,7 +396,8 @@ Definition step_stop (s : sys) (th : tid) (e : event) : option sys :=
         end in
       check ctx_ok;
       (* runCancelFn() directly follows the TP *)
-      Some (set_thread th (t <| spc := SEntered i cancel |> <| pend := Some (RRunCtx i) |>) s)
+      (* ... only for an external stop: an internal stop (readiness failure) leaves the run context alive *)
+      Some (set_thread th (t <| spc := SEntered i cancel |> <| pend := if cancel then Some (RRunCtx i) else None |>) s)
   | EStopRunning i =>
       do x <- get i (insts s);
       match spc t with
